@@ -9,6 +9,8 @@ entries=[]
 for f in sorted(glob.glob(V+'/selftest/*.json')):
     for e in json.load(open(f)):
         if not props or e['prop'] in props: entries.append(e)
+ids=set(os.environ.get('SELFTEST_IDS','').split())  # optional: only these mutant ids
+if ids: entries=[e for e in entries if e['id'] in ids]
 os.makedirs(V+'/out/selftest',exist_ok=True)
 fails=0
 for e in entries:
